@@ -1282,7 +1282,7 @@ func (st *Runtime) evalCommandExpression(node *CommandNode) (reflect.Value, bool
 			}
 			return ret, false
 		}
-		node.Exprs[0].errorf("command %q has arguments but is %s, not a function", node.Exprs[0], term.Type())
+		node.BaseExpr.errorf("command %q is called but is %s, not a function", node.BaseExpr, term.Type())
 	}
 	return term, false
 }
